@@ -138,6 +138,8 @@ structure Dir where
   name : List Char
   start : Nat
   len : Nat
+  /-- object type of the entry (byte 66): 1 storage, 2 stream, 5 root storage, 0 unused -/
+  kind : Nat
   deriving Repr, DecidableEq
 
 def replacement : Char := Char.ofNat 0xFFFD
@@ -167,10 +169,10 @@ def Dir.fromSlice (buf : Bytes) (sectorSize : Nat) : Res Dir :=
     let cs := decodeName64 (buf.take 64)
     if sectorSize = 512 then
       if buf.length < 124 then .panic "Directory::from_slice: read_u32"
-      else .ok ⟨untilNul cs, u32At buf 116, u32At buf 120⟩
+      else .ok ⟨untilNul cs, u32At buf 116, u32At buf 120, byteAt buf 66⟩
     else
       if buf.length < 128 then .panic "Directory::from_slice: slice index"
-      else .ok ⟨untilNul cs, u32At buf 116, u64At buf 120⟩
+      else .ok ⟨untilNul cs, u32At buf 116, u64At buf 120, byteAt buf 66⟩
 
 /-- `slice.chunks_exact(n)`: the whole chunks only (a shorter remainder is dropped) -/
 def chunksAux (n : Nat) : Nat → Bytes → List Bytes
@@ -259,7 +261,7 @@ def new (file : Bytes) (_len : Nat) : Res (CfbSt × Bytes) := do
       .ok (⟨dirs, s5, fats, ⟨ministream, 64⟩, u32s mf⟩, rd5)
     else .ok (⟨dirs, s3, fats, ⟨[], 64⟩, []⟩, rd3)
 
-/-- `Cfb::has_directory` -/
+/-- `Cfb::has_directory`: any entry of that name, whatever its type (callers ask for storages and for streams) -/
 def hasDirectory (c : CfbSt) (name : List Char) : Bool := c.dirs.any (fun d => d.name = name)
 
 /-- the `Some(d)` arm of `Cfb::get_stream`: streams shorter than 4096 bytes are read from the mini stream
@@ -278,9 +280,13 @@ def getStreamAt (c : CfbSt) (d : Dir) (rd : Bytes) : Res (Bytes × CfbSt × Byte
     | .panic e => .panic e
     | .outOfFuel => .outOfFuel
 
-/-- `Cfb::get_stream` -/
+/-- object type of a stream entry -/
+def STREAM_OBJECT : Nat := 2
+
+/-- `Cfb::get_stream`: the first STREAM entry with that name (a storage may carry the name of a stream; its start
+    and size fields mean nothing) -/
 def getStream (c : CfbSt) (name : List Char) (rd : Bytes) : Res (Bytes × CfbSt × Bytes) :=
-  match c.dirs.find? (fun d => d.name = name) with
+  match c.dirs.find? (fun d => d.kind = STREAM_OBJECT ∧ d.name = name) with
   | none => .err "notfound"
   | some d => getStreamAt c d rd
 
@@ -366,7 +372,7 @@ def newCost (file : Bytes) : Nat :=
 
 /-- sector reads of `Cfb::get_stream` -/
 def getStreamCost (c : CfbSt) (name : List Char) (rd : Bytes) : Nat :=
-  match c.dirs.find? (fun d => d.name = name) with
+  match c.dirs.find? (fun d => d.kind = STREAM_OBJECT ∧ d.name = name) with
   | none => 0
   | some d =>
     if d.len < 4096 then c.mini.getChainCost d.start c.miniFats rd
